@@ -37,12 +37,13 @@ fn hub(label: &str, f: impl FnOnce(&mut HubCore)) -> HubCore {
 
 pub fn build(id: &str, tier: Tier) -> Option<Check> {
     let q = tier == Tier::Quick;
-    let secs = tier.pick(400.0, 1200.0);
+    let secs = tier.pick(400.0, 2000.0);
     Some(match id {
         "C02" => Check {
             id: "C02",
             jobs: vec![
                 bfs(hub("c02-main", |h| { h.arm.c02 = true; h.with_registry = true; h.with_rewards = true; h.budget = tier.pick(1, 2); if !q { h.seeds = vec!["funded", "slashed_unseen", "inflight", "three_vals"]; } }), tier.pick(4, 6), secs),
+                bfs(hub("c02-dust-pool", |h| { h.arm.c02 = true; h.seeds = vec!["dust_pool"]; h.budget = 1; h.slash_fracs = vec![(1, 2), (1, 10)]; h.with_withdraw = false; h.bond_amounts = vec![1]; }), tier.pick(4, 5), secs),
                 bfs(hub("c02-pegfee", |h| { h.arm.c02 = true; h.peg_fee = "0.01"; h.seeds = vec!["slashed"]; h.with_withdraw = false; }), tier.pick(4, 5), secs),
             ],
             rule: "every sequence of <= D hub actions (bond, bond-stSei, unbond x3 amounts, convert, withdraw, slashing check, index update, reward accrual, registry add/remove, time jumps to critical instants, <= F slashing/rogue-transfer deviations) from curated seed states; non-trivial = a transition on which a C02 premise held (a bond-type execution, an unbond, a pricing operation)".into(),
@@ -110,6 +111,7 @@ pub fn build(id: &str, tier: Tier) -> Option<Check> {
             id: "C07",
             jobs: vec![
                 bfs(ulc("c07-ledger", |h| { h.arm.c07 = true; h.with_send_from = true; h.with_foreign_receive = true; h.seeds = vec!["allowances"]; h.budget = 0; h.users = if q { vec![ALICE, BOB] } else { vec![ALICE, BOB, CAROL] }; }), tier.pick(5, 7), secs),
+                bfs(ulc("c07-long-history", |h| { h.arm.c07 = true; h.seeds = vec!["ten_batches"]; h.sym = false; h.amounts_abs = vec![3]; h.budget = 0; }), tier.pick(3, 5), secs),
                 bfs(ulc("c07-pegfee", |h| { h.arm.c07 = true; h.peg_fee = "0.01"; h.seeds = vec!["slashed"]; h.budget = 0; h.with_bond = true; }), tier.pick(4, 6), secs),
             ],
             rule: "every sequence of <= D unbonds (Send and allowance-based SendFrom, both tokens, 3 amounts each), withdraws, forged Receive hooks and time jumps for 2-3 users plus a spender; a reference claim ledger carried in the state is compared with UnbondRequests of every known address, CurrentBatch totals, AllHistory totals and every AllHistory page in every distinct state; non-trivial = an accepted unbond or a state with closed batches".into(),
@@ -122,7 +124,7 @@ pub fn build(id: &str, tier: Tier) -> Option<Check> {
                 id: "C08",
                 jobs: periods
                     .into_iter()
-                    .map(|(e, u)| bfs(ulc(&format!("c08-E{}-U{}", e, u), |h| { h.arm.c08 = true; h.epoch = e; h.unbonding = u; h.full_time = true; h.sym = false; h.amounts_abs = vec![1, 100]; h.seeds = vec!["funded"]; h.budget = 0; }), tier.pick(6, 8), secs / 3.0))
+                    .map(|(e, u)| bfs(ulc(&format!("c08-E{}-U{}", e, u), |h| { h.arm.c08 = true; h.epoch = e; h.unbonding = u; h.full_time = true; h.sym = false; h.amounts_abs = vec![1, 100]; h.seeds = if e == 10 { vec!["funded", "slashed"] } else { vec!["funded"] }; h.budget = 0; }), tier.pick(6, 8), secs / 3.0))
                     .collect(),
                 rule: "for each (epoch, unbonding) period configuration every sequence of <= D unbond(1|100)/withdraw actions of 2 users interleaved with the full time-region alphabet (+1 second and every critical instant c-1, c, c+1 of the epoch boundary and of every pending release); every transition compares the history before/after and checks the epoch and unbonding comparisons at the exact boundary seconds; non-trivial = batch close, release transition, in-epoch unbond or a paid withdraw".into(),
                 assumptions: envelope(),
@@ -134,7 +136,7 @@ pub fn build(id: &str, tier: Tier) -> Option<Check> {
             jobs: vec![
                 bfs(hub("c09-exits", |h| { h.arm.c09 = true; h.with_rewards = true; h.with_transfers = true; h.budget = tier.pick(1, 2); h.slash_fracs = vec![(1, 10), (1, 2)]; h.seeds = if q { vec!["funded", "slashed", "inflight"] } else { vec!["funded", "slashed", "slashed_unseen", "inflight", "rewarded", "three_vals"] }; }), tier.pick(3, 5), secs),
                 bfs(hub("c09-long-history", |h| { h.arm.c09 = true; h.seeds = vec!["ten_batches"]; h.budget = 0; h.with_convert = false; h.bond_amounts = vec![100]; }), tier.pick(2, 3), secs),
-                bfs(ulc("c09-matured-claims", |h| { h.arm.c09 = true; h.seeds = vec!["two_inflight", "ten_batches"]; h.sym = false; h.amounts_abs = vec![3]; h.budget = 1; h.slash_vals = vec!["val1", "val2"]; h.unbonding_slash = vec![(1, 2), (1, 100)]; h.with_rogue = false; }), tier.pick(4, 6), secs),
+                bfs(ulc("c09-matured-claims", |h| { h.arm.c09 = true; h.seeds = vec!["two_inflight", "ten_batches", "slashed"]; h.sym = false; h.amounts_abs = vec![3]; h.budget = 1; h.slash_vals = vec!["val1", "val2"]; h.unbonding_slash = vec![(1, 2), (1, 100)]; h.with_rogue = false; }), tier.pick(4, 6), secs),
                 bfs(hub("c09-pegfee", |h| { h.arm.c09 = true; h.peg_fee = "0.01"; h.seeds = vec!["slashed"]; h.budget = 1; }), tier.pick(3, 4), secs),
             ],
             rule: "in every distinct state of a hub-core exploration (bond, unbond, convert, withdraw, transfers, reward accrual and index updates, time, <= F slashing deviations incl. 50% slashes and full pool drains) a probe runs on clones: every holder unbonds one unit and its whole balance of each token; the whole-balance exit is continued (jump past the epoch, a fresh holder's one-unit unbond must close the batch, jump past the unbonding period, withdraw); and every user-facing transition (bond, unbond, convert, withdraw, slashing check, token transfer/send, reward claim) is re-executed under the 8 other swap/oracle stub-mode combinations (ok/fail/garbage) and must give the identical result, effects and post-state; non-trivial = a state with exit probes or a transition with stub-mode products".into(),
@@ -186,7 +188,7 @@ pub fn build(id: &str, tier: Tier) -> Option<Check> {
         "C15" => Check {
             id: "C15",
             jobs: vec![
-                bfs(rw("c15-ledger", |h| { h.arm.c15 = true; h.seeds = vec!["holders", "empty"]; if !q { h.users = vec![ALICE, BOB, CAROL]; } }), tier.pick(5, 6), secs),
+                bfs(rw("c15-ledger", |h| { h.arm.c15 = true; h.arm.c14 = true; h.seeds = vec!["holders", "empty"]; if !q { h.users = vec![ALICE, BOB, CAROL]; } }), tier.pick(5, 6), secs),
                 bfs(rw("c15-allowance", |h| { h.arm.c15 = true; h.seeds = vec!["allowances"]; h.with_allowance = true; h.with_sink = true; h.rewards = vec![19]; }), tier.pick(4, 5), secs),
                 bfs(rw("c15-diamonds", |h| { h.arm.diamonds = true; h.seeds = vec!["allowances"]; h.with_allowance = true; h.rewards = vec![19]; }), tier.pick(2, 3), secs),
                 bfs(rw("c15-split-2-1", |h| { h.seeds = vec!["split"]; h.split = Some((2, 1)); h.rewards = vec![7, 1_000_000_000_000_000_000]; }), tier.pick(6, 8), secs),
